@@ -1174,11 +1174,19 @@ def run(ck):
     ok_col, info_col = ck.lean_obligations("DS.Props.C08Column")
     if not ok_col:
         ok, info = False, info_col
+    # source tie: the container methods of structure.py, as written, are what the World model was written from
+    # (translate/src_container.py -> DS/Gen/SrcContainer.lean; DS.Props.SrcContainer compares with planG's parameters)
+    tie_ok, tie_info = ck.source_tie("DS.Props.SrcContainer", groups=("container",))
     from . import c08_column
 
     c08_column.run(ck)
     quick = ck.tier == "quick"
     nhist = 500 if quick else 4000
+    if not tie_ok:
+        # a container method no longer reads as the model assumes: widen the failing-input search
+        nhist *= 3
+        ck.notes.append("source tie DS.Props.SrcContainer is broken (%s): %d histories instead of %d" % (
+            ", ".join(tie_info.get("broken_theorems") or ["translator"]), nhist, nhist // 3))
     maxlen = 12 if quick else 40
     g = Gen(ck.rng, maxlen)
     histories, impl_obs, oracle_fail = [], [], []
@@ -1298,7 +1306,9 @@ def run(ck):
     ]
     ck.coverage["trusted_base"] += [
         "harness/c08.py (history generator, executor on real objects, plain-list oracle, identity assertions)",
-        "CPython object identity / list semantics as modelled in DS/Model/World.lean (validated differentially each run)"]
+        "CPython object identity / list semantics as modelled in DS/Model/World.lean (validated differentially each run)",
+        "translate/src_container.py (reads the container methods of structure.py: parameters and defaults, lattice stores, super() "
+        "calls, call skeleton, statements; its output is what the theorems of DS.Props.SrcContainer compare the model's parameters with)"]
     ck.assumptions += [
         "atom attributes other than the payload (xyz, U, element, label text) are not modelled; labels are derived from payloads",
         "whole-column attribute assignment (stru.xyz = ..., occupancy, U...) is modelled separately (DS.Column / DS.Props.C08Column): NumPy broadcasting of the value; it does not interact with the object-graph model because it changes no identity, order or lattice reference (checked on every assignment)",
@@ -1313,6 +1323,7 @@ def run(ck):
         "recorded up to round 4 had a weaker side condition and is proved false (no_alias_statement_plainRemain_false, replayed here)",
         "composition / column arrays (xyz, occupancy, U...) are not compared; the payload is a custom attribute copied by Atom.__copy__",
     ]
+    ck.tie_verdict(tie_ok, tie_info, "structure.py (container methods of Structure)")
     if not ok and not ck.violations:
         ck.fail("lean-build", "Lean obligations of C08 no longer check: %r" % (info["failed_modules"],),
                 {"kind": "proof-obligation", "theorem": info["failed_modules"], "errors": info["errors"], "log": info.get("log_tail", "")},
